@@ -113,13 +113,19 @@ impl<'c, Q: Queue> Interp<'c, Q> {
         let pv = self.resolve_prio(p, id);
         let old = self.model.get(id);
         let k = Key::new(id, tag);
-        let pr = Prio::new(pv);
-        let got = match dir {
+        // the offered priority carries a stamp ignored by Ord/Eq, so that "returns the offered priority"
+        // / "returns the old priority" / "leaves the queue untouched" are decidable on ties as well
+        let offered_stamp = 0x5000_0000u32 | (self.step as u32 & 0xffff) << 8 | (tag & 0xff);
+        let stored_stamp_before = self.q.get_priority(&id).map(|p| p.stamp);
+        let pr = Prio::stamped(pv, offered_stamp);
+        let got_full = match dir {
             0 => self.q.push(k, pr),
             1 => self.q.push_increase(k, pr),
             _ => self.q.push_decrease(k, pr),
-        }
-        .map(|x| x.v);
+        };
+        let got_stamp = got_full.as_ref().map(|x| x.stamp);
+        let got = got_full.map(|x| x.v);
+        let stored_stamp_after = self.q.get_priority(&id).map(|p| p.stamp);
         let (want, newp) = match (old, dir) {
             (None, _) => (None, Some(pv)),
             (Some((_, o)), 0) => (Some(o), Some(pv)),
@@ -144,6 +150,30 @@ impl<'c, Q: Queue> Interp<'c, Q> {
                 "push_ret",
                 format!("{}({}, {}) returned {:?}, model says {:?} (stored {:?})", self.opname, id, pv, got, want, old),
             );
+        } else if old.is_some() {
+            // which of two equal priorities: only meaningful when the values agree
+            let accepted = newp.is_some();
+            let (want_ret, want_stored) = if accepted { (stored_stamp_before, Some(offered_stamp)) } else { (Some(offered_stamp), stored_stamp_before) };
+            if got_stamp != want_ret || stored_stamp_after != want_stored {
+                self.fail(
+                    Group::Ret,
+                    "push_which_priority",
+                    format!(
+                        "{}({}, {}) on stored {:?}: the call {} the offer, so it must return the {} priority object and leave the {} one stored; returned stamp {:?} (offered {:x}, stored before {:?}), stored afterwards {:?}",
+                        self.opname,
+                        id,
+                        pv,
+                        old,
+                        if accepted { "accepts" } else { "refuses" },
+                        if accepted { "old" } else { "offered" },
+                        if accepted { "offered" } else { "old" },
+                        got_stamp,
+                        offered_stamp,
+                        stored_stamp_before,
+                        stored_stamp_after
+                    ),
+                );
+            }
         }
         self.tr(TraceEv::OptPrio(got));
         match old {
